@@ -11,7 +11,7 @@ use sqldatetime::verif_hooks::{clock_reads, set_now};
 use sqldatetime::{Date, Formatter, OracleDate, Time, Timestamp};
 use std::convert::TryFrom;
 
-fn clock(y: i32, m: u32, d: u32, tod_us: i64) -> chrono::NaiveDateTime {
+pub fn clock(y: i32, m: u32, d: u32, tod_us: i64) -> chrono::NaiveDateTime {
     let date = chrono::NaiveDate::from_ymd_opt(y, m, d).expect("clock date");
     let secs = (tod_us / US_SEC) as u32;
     let time = chrono::NaiveTime::from_num_seconds_from_midnight_opt(secs, ((tod_us % US_SEC) * 1000) as u32).expect("clock time");
